@@ -249,8 +249,8 @@ def main(tier):
     rep = H.Report(PROP, tier)
     prog = H.get_program()
     rng = H.rng(PROP)
-    W = 3 if tier == 'quick' else 5
-    gaps = list(range(0, 26)) + [30, 38, 39, 45] if tier == 'quick' else list(range(0, 46))
+    W = 3 if tier == 'quick' else 4
+    gaps = list(range(0, 26)) + [30, 38, 39, 45] if tier == 'quick' else list(range(0, 31)) + [38, 39, 45]
     tasks = []
     fns = list(FUNCS)
     i = 0
